@@ -76,6 +76,10 @@
 /* Define NULL string */
 #define WBXML_UTINY_NULL_STRING ((WB_UTINY *)"")
 
+/** Maximum nesting depth of elements accepted in a document (the parser, the tree
+ *  functions and the encoder walk nested elements recursively) */
+#define WBXML_MAX_NESTING_DEPTH 1000
+
 /* WBXML Lib string functions */
 #define WBXML_STRLEN(a) strlen((const WB_TINY*)a)
 #define WBXML_STRCMP(a,b) strcmp((const WB_TINY*)a,(const WB_TINY*)b)
